@@ -19,19 +19,19 @@ import (
 // source; the result is reported in the evidence and is never a verdict about /repo.
 
 type selfValResult struct {
-	Applied        int      `json:"applied"`
-	Detected       int      `json:"detected"`
-	Skipped        int      `json:"skipped"`
-	Broken         int      `json:"not_detected"`
-	OutOfClaim     int      `json:"not_detected_outside_claim"`
-	BenignApplied  int      `json:"benign_applied"`
-	BenignSilent   int      `json:"benign_silent"`
-	BenignAlarming int      `json:"benign_alarming"`
+	Applied        int `json:"applied"`
+	Detected       int `json:"detected"`
+	Skipped        int `json:"skipped"`
+	Broken         int `json:"not_detected"`
+	OutOfClaim     int `json:"not_detected_outside_claim"`
+	BenignApplied  int `json:"benign_applied"`
+	BenignSilent   int `json:"benign_silent"`
+	BenignAlarming int `json:"benign_alarming"`
 	// behaviour-preserving refactorings written by sub-agents (benign/refactor*): measured, not expected to be all silent
-	RefactorApplied  int `json:"refactorings_applied"`
-	RefactorSilent   int `json:"refactorings_silent"`
-	RefactorAlarming int `json:"refactorings_false_alarms"`
-	Details        []string `json:"details"`
+	RefactorApplied  int      `json:"refactorings_applied"`
+	RefactorSilent   int      `json:"refactorings_silent"`
+	RefactorAlarming int      `json:"refactorings_false_alarms"`
+	Details          []string `json:"details"`
 }
 
 type seedMeta struct {
